@@ -21,6 +21,110 @@ use std::time::Instant;
 
 pub const VERIF_ROOT: &str = "/verif";
 
+/// Set by the E1 engine: the verdict of this run depends on every synchronisation primitive of the code under test
+/// being routed through the hooks.
+pub static E1_USED: std::sync::atomic::AtomicBool = std::sync::atomic::AtomicBool::new(false);
+
+pub const REPO_ROOT: &str = "/repo";
+const AUDITED_FILES: [&str; 9] = ["atomic64.rs", "vec.rs", "histogram.rs", "registry.rs", "counter.rs", "gauge.rs", "value.rs", "metrics.rs", "desc.rs"];
+
+/// The synchronisation and shared-state facilities the hooked modules (tests excluded) name, one item per statement
+/// and facility: `std::sync::Mutex`, `parking_lot::RwLock`, `AtomicBool`, `thread_local!`, ...
+/// (types that carry no synchronisation of their own, like `Arc` or `TryLockError`, are not items).
+pub fn hook_audit_items() -> std::collections::BTreeMap<String, Vec<String>> {
+    let std_prims = [
+        "Mutex", "RwLock", "Condvar", "Barrier", "Once", "OnceLock", "LazyLock", "mpsc", "AtomicBool", "AtomicUsize", "AtomicIsize", "AtomicU64",
+        "AtomicI64", "AtomicU32", "AtomicI32", "AtomicU16", "AtomicI16", "AtomicU8", "AtomicI8", "AtomicPtr", "fence", "compiler_fence",
+    ];
+    let pl_prims = ["Mutex", "RwLock", "Condvar", "Once", "ReentrantMutex", "FairMutex", "const_mutex", "const_rwlock"];
+    // names that always mean a facility outside the hooks, wherever they come from
+    let bare = [
+        "AtomicBool", "AtomicUsize", "AtomicIsize", "AtomicU32", "AtomicI32", "AtomicU16", "AtomicI16", "AtomicU8", "AtomicI8", "AtomicPtr", "Condvar",
+        "Barrier", "OnceLock", "OnceCell", "LazyLock", "UnsafeCell", "SyncUnsafeCell",
+    ];
+    let phrases = ["thread_local!", "lazy_static", "once_cell", "crossbeam", "static mut", "spin_loop", "yield_now", "thread::sleep", "thread::park", "thread::spawn"];
+    let idents = |s: &str| -> Vec<String> { s.split(|c: char| !(c.is_alphanumeric() || c == '_')).filter(|w| !w.is_empty()).map(String::from).collect() };
+    let mut out = std::collections::BTreeMap::new();
+    for f in AUDITED_FILES {
+        let path = PathBuf::from(REPO_ROOT).join("src").join(f);
+        let text = std::fs::read_to_string(&path).unwrap_or_default();
+        let text = match text.find("\n#[cfg(test)]\nmod ") {
+            Some(i) => text[..i].to_string(),
+            None => text,
+        };
+        let mut items = vec![];
+        let mut stmt = String::new();
+        for line in text.lines() {
+            let line = match line.find("//") {
+                Some(i) => &line[..i],
+                None => line,
+            };
+            let t = line.trim();
+            if t.is_empty() {
+                continue;
+            }
+            if !stmt.is_empty() || t.starts_with("use ") || t.starts_with("pub use ") || t.starts_with("pub(crate) use ") {
+                if !stmt.is_empty() {
+                    stmt.push(' ');
+                }
+                stmt.push_str(t);
+                if !t.ends_with(';') {
+                    continue;
+                }
+            } else {
+                stmt.push_str(t);
+            }
+            let item = std::mem::take(&mut stmt);
+            let ids = idents(&item);
+            let mut found = std::collections::BTreeSet::new();
+            if item.contains("std::sync") || item.contains("core::sync") {
+                for w in ids.iter().filter(|w| std_prims.contains(&w.as_str())) {
+                    found.insert(format!("std::sync::{}", w));
+                }
+            }
+            if item.contains("parking_lot") {
+                for w in ids.iter().filter(|w| pl_prims.contains(&w.as_str())) {
+                    found.insert(format!("parking_lot::{}", w));
+                }
+            }
+            for w in ids.iter().filter(|w| bare.contains(&w.as_str())) {
+                found.insert(w.clone());
+            }
+            for ph in phrases {
+                if item.contains(ph) {
+                    found.insert(ph.to_string());
+                }
+            }
+            items.extend(found);
+        }
+        items.sort();
+        out.insert(f.to_string(), items);
+    }
+    out
+}
+
+/// Items of the current tree that the committed baseline (`hook_audit_baseline.json`) does not list: primitives the
+/// scheduler cannot see.
+pub fn hook_audit() -> Vec<String> {
+    let base: Value = std::fs::read_to_string(PathBuf::from(VERIF_ROOT).join("hook_audit_baseline.json"))
+        .ok()
+        .and_then(|s| serde_json::from_str(&s).ok())
+        .unwrap_or(Value::Null);
+    let mut out = vec![];
+    for (f, items) in hook_audit_items() {
+        let mut allowed: Vec<String> = base.get(&f).and_then(Value::as_array).map(|a| a.iter().filter_map(|v| v.as_str().map(String::from)).collect()).unwrap_or_default();
+        for it in items {
+            if let Some(i) = allowed.iter().position(|a| *a == it) {
+                allowed.remove(i);
+            } else {
+                out.push(format!("src/{}: a use of `{}` beyond the audited baseline: it is not routed through the verification hooks", f, it));
+            }
+        }
+    }
+    out
+}
+
+
 #[derive(Clone, Copy, PartialEq, Eq, Debug)]
 pub enum Tier {
     Quick,
@@ -256,6 +360,10 @@ impl Report {
         for (k, v) in &self.extra {
             coverage[k] = v.clone();
         }
+        let gaps = if E1_USED.load(std::sync::atomic::Ordering::Relaxed) { hook_audit() } else { vec![] };
+        if E1_USED.load(std::sync::atomic::Ordering::Relaxed) {
+            coverage["hook_coverage_gaps"] = json!(gaps);
+        }
         let ev = json!({
             "property_id": self.property,
             "tier": self.tier.name(),
@@ -289,6 +397,16 @@ impl Report {
         }
         if new_violations > 0 {
             1
+        } else if !gaps.is_empty() {
+            for g in &gaps {
+                println!("HOOK-COVERAGE: {}", g);
+            }
+            println!(
+                "{} UNDECIDED: no violation among the schedules explored, but the code under test uses primitives the scheduler cannot see \
+                 (route them through /repo/src/verif.rs, then refresh hook_audit_baseline.json with `hookaudit --write`)",
+                self.property
+            );
+            2
         } else {
             println!("{} OK", self.property);
             0
